@@ -21,6 +21,8 @@ MANIFEST = {
             "comparing, as the statement allows.",
     "technique": "bounded-exhaustive differential enumeration: same inputs on two backends, all observables compared",
 }
+MANIFEST["text"] += " " + (
+    'Added after the seeding waves: a second SQLite map built with single inserts, and an incremental build (load a part, query it, add the rest with add_edge, compare again).')
 BUDGET = {"quick": 400, "thorough": 2400}
 RULE = ("cases = (coordinate set, graph); each compares all observables, 64 boxes and all traces x 4 matcher configurations on both "
         "backends. states = (graph, box) and (graph, trace, configuration) pairs compared, transitions = observable comparisons, "
